@@ -49,8 +49,8 @@ pub fn judge_nocover<T: Viewed>(r: Result<T, Rec>, ex: &Expect, p: &Path) {
             oblige!(stop_then_handover(&e), "C03:stop_ends_work");
             oblige!(all_under(&e, p), "C04:every_event_under_the_given_location");
             oblige!(agree_on(&e, &ex.log, |x| x.kind() == K_HANDOVER || x.kind() == K_UNEXPECTED || x.kind() == K_KIND), "C04:locations_and_actual_values");
-            oblige!(agree_on(&e, &ex.log, is_missing_ev), "C07,C08:missing_reports");
-            oblige!(agree_on(&e, &ex.log, is_unknown_key_ev), "C07,C09:unknown_key_reports");
+            oblige!(agree_on(&e, &ex.log, is_missing_ev), "C04,C07,C08:missing_reports");
+            oblige!(agree_on(&e, &ex.log, is_unknown_key_ev), "C04,C07,C09:unknown_key_reports");
             oblige!(agree_on(&e, &ex.log, is_user_fn_ev), "C11:user_function_errors_handed_over");
             oblige!(!no_stop(&e) || eq_counters(&counters(), &ex.counters), "C11:user_functions_run_exactly_once_on_good_values");
         }
@@ -255,7 +255,7 @@ fn tagged_run(n: u8) -> (Result<Tagged, Rec>, Expect, Path) {
     let r = <Tagged as Deserr<Rec>>::deserialize_from_value::<KV>(to_value(Node::Map(0, n)), l);
     let mut ex = Expect::EMPTY;
     reference::enum_spec(&E_TAGGED, Node::Map(0, n), p, &mut ex);
-    match (&r, ex.log.n) { (Err(e), k) if k > 0 => { oblige!(agree_on(e, &ex.log, is_tag_ev), "C10:tag_and_variant_reports"); } _ => {} }
+    match (&r, ex.log.n) { (Err(e), k) if k > 0 => { oblige!(agree_on(e, &ex.log, is_tag_ev), "C04,C10:tag_and_variant_reports"); } _ => {} }
     (r, ex, p)
 }
 fn run_tagged(n: u8) { let (r, ex, p) = tagged_run(n); judge(r, &ex, &p); }
@@ -285,7 +285,7 @@ pub fn derive_units() {
     let r = <Units as Deserr<Rec>>::deserialize_from_value::<KV>(to_value(n), l);
     let mut ex = Expect::EMPTY;
     reference::unit_enum_spec(&[0, 1, 2], n, p, &mut ex);
-    match (&r, ex.log.n) { (Err(e), k) if k > 0 => { oblige!(agree_on(e, &ex.log, is_tag_ev), "C10:tag_and_variant_reports"); } _ => {} }
+    match (&r, ex.log.n) { (Err(e), k) if k > 0 => { oblige!(agree_on(e, &ex.log, is_tag_ev), "C04,C10:tag_and_variant_reports"); } _ => {} }
     judge(r, &ex, &p);
 }
 
